@@ -1,5 +1,6 @@
 From Coq Require Import ZArith List.
 From PV Require Import Base.U64 C10.C10_Model C10.C10_Proofs C10.C10_ProofsLoop C10.C10_ProofsTop C10.C10_Engine C10.C10_ProofsEngine C10.C10_ProofsRearm C10.C10_ProofsAgree C10.C10_ProofsAgree2 C10.C10_ProofsAgree3.
+From PV Require C10.C10_EngineNG C10.C10_ProofsNG C10.C10_ProofsNG2.
 Import ListNotations.
 Local Open Scope Z_scope.
 
@@ -78,3 +79,40 @@ Theorem engine_kernel_agree : forall steps,
   guarded steps init_st -> engine_kernel_agree_at (run_engine steps).
 Proof. exact engine_kernel_agree_lemma. Qed.
 Print Assumptions engine_kernel_agree.
+
+Theorem ng_fire_only_registered : forall g steps,
+  C10_ProofsNG2.ng_guarded g steps C10_EngineNG.ng_init -> C10_EngineNG.n_misfire (C10_EngineNG.run_ng_g g steps) = false.
+Proof. exact C10_ProofsNG2.ng_fire_only_registered_lemma. Qed.
+Print Assumptions ng_fire_only_registered.
+
+Theorem ng_no_stale_waiter_access : forall g steps,
+  C10_ProofsNG2.ng_guarded g steps C10_EngineNG.ng_init -> C10_EngineNG.n_stale (C10_EngineNG.run_ng_g g steps) = false.
+Proof. exact C10_ProofsNG2.ng_no_stale_waiter_access_lemma. Qed.
+Print Assumptions ng_no_stale_waiter_access.
+
+Theorem ng_entries_owned_by_waiters : forall g steps,
+  C10_ProofsNG2.ng_guarded g steps C10_EngineNG.ng_init -> C10_ProofsNG2.ng_entries_owned (C10_EngineNG.run_ng_g g steps).
+Proof. exact C10_ProofsNG2.ng_entries_owned_lemma. Qed.
+Print Assumptions ng_entries_owned_by_waiters.
+
+Theorem ng_no_cross_talk_other_fd : forall g fd ints data s q fd',
+  fd <> fd' ->
+  C10_EngineNG.nkfind fd' (C10_EngineNG.klist q (C10_EngineNG.n_k (snd (C10_EngineNG.add_interest g fd ints data s)))) = C10_EngineNG.nkfind fd' (C10_EngineNG.klist q (C10_EngineNG.n_k s)) /\
+  C10_EngineNG.nkfind fd' (C10_EngineNG.klist q (C10_EngineNG.n_k (snd (C10_EngineNG.rm_interest fd ints s)))) = C10_EngineNG.nkfind fd' (C10_EngineNG.klist q (C10_EngineNG.n_k s)).
+Proof. exact C10_ProofsNG2.ng_no_cross_talk_other_fd_lemma. Qed.
+Print Assumptions ng_no_cross_talk_other_fd.
+
+Theorem ng_no_cross_talk_other_direction_rm : forall fd ints s q,
+  C10_ProofsNG.dir_untouched ints q -> C10_EngineNG.klist q (C10_EngineNG.n_k (snd (C10_EngineNG.rm_interest fd ints s))) = C10_EngineNG.klist q (C10_EngineNG.n_k s).
+Proof. exact C10_ProofsNG.rm_interest_other_dir. Qed.
+Print Assumptions ng_no_cross_talk_other_direction_rm.
+
+Theorem ng_no_cross_talk_other_direction_add_repaired : forall fd ints data s q,
+  C10_ProofsNG.dir_untouched ints q -> C10_EngineNG.klist q (C10_EngineNG.n_k (snd (C10_EngineNG.add_interest true fd ints data s))) = C10_EngineNG.klist q (C10_EngineNG.n_k s).
+Proof. exact C10_ProofsNG.add_interest_other_dir_guarded. Qed.
+Print Assumptions ng_no_cross_talk_other_direction_add_repaired.
+
+Theorem ng_no_cross_talk_other_direction_refuted :
+  exists steps, forallb C10_ProofsNG.plain_step steps = true /\ ~ C10_ProofsNG.ng_agree_at (C10_EngineNG.run_ng_g false steps).
+Proof. exact C10_ProofsNG.ng_agree_refuted_lemma. Qed.
+Print Assumptions ng_no_cross_talk_other_direction_refuted.
